@@ -58,7 +58,7 @@ class C15(HsProp):
     def generate(self, tier, rng):
         quick = tier == 'quick'
         out = list(self.corpus())
-        variants = gen_hs.server_request_variants(rng, 150 if quick else 1500)
+        variants = gen_hs.server_request_variants(rng, 150 if quick else 6000)
         k = 0
         for hs, method, ver in variants:
             out.append('SD sd%d %s %s %s' % (k, hx(method), {b'HTTP/1.0': '10', b'HTTP/1.1': '11'}[ver], gen_hs.hdrs_field(hs)))
@@ -123,7 +123,7 @@ class C16(HsProp):
             resp = gen_hs.response_bytes([(b'Upgrade', b'websocket'), (b'Connection', b'Upgrade'), (b'Sec-WebSocket-Accept', gen_hs.ACCEPT_MARK)])
             out.append(gen_hs.hc_case('hu%d' % k, uri, ops=['r', 'r'], rds=['d:' + hx(resp + frame1 + frame2)])); k += 1
         for subs in ([], [b'chat'], [b'chat', b'superchat'], [b' chat ', b'x']):
-            variants = gen_hs.server_response_variants(rng, 20 if quick else 300, subs)
+            variants = gen_hs.server_response_variants(rng, 20 if quick else 1500, subs)
             if quick and subs:
                 variants = variants[:40] + rng.sample(variants[40:], 30)
             for hs, status, ver in variants:
@@ -154,6 +154,13 @@ class C16(HsProp):
         for extra in ([(b'Host', b'evil.example')], [(b'sec-websocket-key', b'Zml4ZWRmaXhlZGZpeGVkZg==')], [(b'UPGRADE', b'h2c')],
                       [(b'Connection', b'close')], [(b'Sec-WebSocket-Version', b'8')], [(b'Host', b'a.example'), (b'X-Other', b'1')]):
             out.append(gen_hs.hc_case('hx%d' % k, b'ws://user@example.com:81/p', [], extra, ['r'], ['d:' + hx(resp0 + frame1)])); k += 1
+        # ClientRequestBuilder: URL + extra headers (clashing with mandatory ones or not, any case) + subprotocols
+        extras = [[], [(b'X-A', b'1')], [(b'Host', b'evil.example')], [(b'sec-websocket-key', b'Zml4ZWQ=')], [(b'ORIGIN', b'http://o')],
+                  [(b'Upgrade', b'h2c'), (b'Connection', b'close'), (b'Sec-WebSocket-Version', b'8')], [(b'X-A', b'1'), (b'x-a', b'2'), (b'Origin', b'o')]]
+        for uri in gen_hs.URIS:
+            for ei, extra in enumerate(extras):
+                subs = [[], [b'chat'], [b'chat', b'v2.example']][(k + ei) % 3]
+                out.append('CB cb%d %s %s %s' % (k, hx(uri), ','.join(hx(x) for x in subs) if subs else '-', gen_hs.hdrs_field(extra))); k += 1
         # generate_request on hand-built requests (duplicates, missing, extras)
         base = [(b'Host', b'h.example'), (b'Connection', b'Upgrade'), (b'Upgrade', b'websocket'), (b'Sec-WebSocket-Version', b'13'), (b'Sec-WebSocket-Key', b'a2V5a2V5a2V5a2V5a2V5a2==')]
         for i in range(len(base)):
@@ -166,7 +173,7 @@ class C16(HsProp):
         return out
     def project(self, case_line, trace):
         # extra (non-required) header lines of generate_request follow HeaderMap's internal order: compare as a multiset
-        if case_line.startswith('GR ') and trace.startswith('ok:'):
+        if (case_line.startswith('GR ') or case_line.startswith('CB ')) and trace.startswith('ok:'):
             p = trace.split(':')
             lines = bytes.fromhex(p[1]).split(b'\r\n')
             return 'ok:%r:%s' % (lines[:6] + sorted(lines[6:]), p[2])
@@ -175,6 +182,35 @@ class C16(HsProp):
         kind = case_line.split(' ')[0]
         if kind == 'HC':
             return monitors_hs.mon_c16(case_line, trace, mline) or monitors_hs.mon_no_panic(trace)
+        if kind == 'CB' and trace.startswith('ok:'):
+            f = case_line.split(' ')
+            uri = ws.unhx(f[2])
+            req = bytes.fromhex(trace.split(':')[1])
+            ph = monitors_hs.parse_head(req)
+            if ph is None or ph[2] != len(req):
+                return 'builder-request-malformed'
+            line, hs, _ = ph
+            rest = uri.split(b'://', 1)[1] if b'://' in uri else uri
+            authority = rest.split(b'/', 1)[0].split(b'?', 1)[0]
+            host = authority.rsplit(b'@', 1)[-1]
+            v = monitors_hs.values
+            for name in (b'Host', b'Connection', b'Upgrade', b'Sec-WebSocket-Version', b'Sec-WebSocket-Key'):
+                if len(v(hs, name)) != 1:
+                    return 'required-header-count: %s appears %d times in a ClientRequestBuilder request' % (name.decode(), len(v(hs, name)))
+            if v(hs, b'Host')[0] != host:
+                return 'host-with-credentials: Host %r, URL authority without credentials %r' % (v(hs, b'Host')[0], host)
+            if v(hs, b'Connection')[0].lower() != b'upgrade' or v(hs, b'Upgrade')[0].lower() != b'websocket' or v(hs, b'Sec-WebSocket-Version')[0] != b'13':
+                return 'required-header-values: user-supplied extra headers changed a mandatory header'
+            import base64, binascii
+            try:
+                raw = base64.b64decode(v(hs, b'Sec-WebSocket-Key')[0], validate=True)
+            except (binascii.Error, ValueError):
+                return 'key-not-base64'
+            if len(raw) != 16:
+                return 'key-length: key decodes to %d bytes (user-supplied value used instead of a fresh key?)' % len(raw)
+            subs = [] if f[3] == '-' else [bytes.fromhex(x) for x in f[3].split(',')]
+            if subs and v(hs, b'Sec-WebSocket-Protocol') != [b', '.join(subs)]:
+                return 'subprotocols: header %r for offered %r' % (v(hs, b'Sec-WebSocket-Protocol'), subs)
         if kind == 'URI' and trace.startswith('ok:'):
             uri = ws.unhx(case_line.split(' ')[2])
             rest = uri.split(b'://', 1)[1] if b'://' in uri else uri
